@@ -87,6 +87,7 @@ package ice
 //@   ensures[C08,C18] err == nil && s.fieldsMap[field] == 0 ==> rv == nil
 //@   ensures[C08,C18] err == nil && s.fieldsMap[field] > 0 ==> rv != nil && rv.sb == s && rv.fieldID == s.fieldsMap[field] - 1
 //@   ensures[C08,C18,C19] err != nil ==> rv == nil
+//@   ensures[C08,C18] err == nil && rv != nil ==> rv.sb == s
 //@   ensures[C08] err == nil && rv != nil && s.dictLocs[rv.fieldID] == 0 ==> rv.fst == nil && rv.fstReader == nil
 //@
 //@ func (*Segment).Dictionary
@@ -152,3 +153,7 @@ package ice
 //@   safety[C18] nil idx
 //@   requires[C18] s != nil
 //@   ensures[C18] result1 == nil ==> result0 != nil
+//@
+//@ func (*Segment).DocsMatchingTerms
+//@   loop 0 invariant[C18] dict == nil || dict.sb == s
+//@   loop 0 invariant[C18] rv != nil
